@@ -123,7 +123,14 @@ func reorgScenarioOpts(c *pbt.C, id string, check func(c *pbt.C, key string, b, 
 		if lenX > 29 {
 			return // beyond the rollback window: C16's domain
 		}
-		grow(c, h2, "y", lenX+1, pbt.Scale(12, 25))
+		// B itself may have produced the last momentum of the branch it abandons (its worker then holds contract receives
+		// and updates made on that branch): Y is grown one momentum longer for that
+		bExtends := lenX < 28 && c.Bool("bExtendsX")
+		needY := lenX + 1
+		if bExtends {
+			needY++
+		}
+		grow(c, h2, "y", needY, pbt.Scale(12, 25))
 		if h.Dead || h2.Dead {
 			c.Excluded("C09-preflight-abort")
 			return
@@ -138,6 +145,20 @@ func reorgScenarioOpts(c *pbt.C, id string, check func(c *pbt.C, key string, b, 
 		// B adopts X
 		if _, err := b.Bridge.InsertChain(h.A.Range(forkAt+1, topX)); err != nil {
 			c.Failf(id+"/setup", "follower refused honest branch X: %v", err)
+		}
+		if bExtends {
+			hb := sim.NewHistOn(c, h.W, b, h)
+			if hb.Produce(0) && b.Height() == topX+1 && topY > b.Height() {
+				lenX++
+				c.Class("reorganised-node-produced-on-the-abandoned-branch")
+			}
+			if hb.Dead {
+				c.Excluded("C09-preflight-abort")
+				return
+			}
+			if topY <= b.Height() {
+				return // Y is not longer than what B holds now (coinciding first momentums): nothing to adopt
+			}
 		}
 		// X's pool leftovers reach B by gossip
 		var pool []*nom.AccountBlock
